@@ -710,7 +710,7 @@ def scen_operator_pair(ctx, model):
             check_object(ctx, op, cc, cc, r, E, scale, rep, probe=probe, sig_map=smap)
 
 
-def scen_program(ctx, model, steps):
+def scen_program(ctx, model, steps=6):
     """Random sequence of arithmetic operations interleaved with gauge operations on a pool of
     states (several sectors) and operators of one model; every intermediate result is checked."""
     run, rng = ctx.run, ctx.rng
@@ -864,6 +864,19 @@ def scen_program(ctx, model, steps):
             ops.pop(int(rng.integers(len(ops))))
 
 
+def safely(ctx, name, spec, fn, *args):
+    """An exception escaping a scenario means an operation of the implementation failed at a point
+    where only valid-input operand preparation happens (copy, move_qnidx, canonicalise of a
+    consistent chain ...).  It is reported, never allowed to abort the search."""
+    try:
+        fn(*args)
+    except Exception as e:  # noqa: BLE001
+        import traceback
+        tb = traceback.format_exc().strip().splitlines()
+        ctx.run.violation(f"{name}:operand-preparation:unexpected-{type(e).__name__}",
+                          dict(scenario=name, model=spec, observed=f"{type(e).__name__}: {e}", traceback=tb[-8:]))
+
+
 # --------------------------------------------------------------------------------------------
 def search(run, rng, quick):
     ctx = Ctx(run, rng, quick)
@@ -877,13 +890,13 @@ def search(run, rng, quick):
             run.sample(dict(round=rd, model=spec))
         for kind in ("mps", "mpo" if rd % 2 else "mpdm"):
             if kind == "mpo":
-                scen_operator_pair(ctx, model)
+                safely(ctx, "operator-pair", spec, scen_operator_pair, ctx, model)
             else:
-                scen_binary(ctx, model, kind)
-            scen_unary(ctx, model, kind)
-        scen_operator(ctx, model)
+                safely(ctx, "binary", spec, scen_binary, ctx, model, kind)
+            safely(ctx, "unary", spec, scen_unary, ctx, model, kind)
+        safely(ctx, "operator", spec, scen_operator, ctx, model)
         if model.nsite <= 4 or not quick:
-            scen_program(ctx, model, steps=6 if quick else 10)
+            safely(ctx, "program", spec, scen_program, ctx, model, 6 if quick else 10)
     run.cov["evaluations"] = run.cov.get("evaluations", 0) + ctx.evals
     run.cov["distinct_nontrivial"] = len(ctx.distinct)
     run.cov["rule"] = ("one evaluation = one operation of the implementation judged against the dense oracle "
